@@ -227,7 +227,18 @@ func runC20(c *CaseCtx) {
 					tx.Rollback()
 					cov["Rollback/update/ok"]++
 				} else if err := tx.Commit(); err != nil {
-					tx.Rollback()
+					// a Commit that returned an error leaves the transaction open: calling Commit again (a retry) is an
+					// API call like any other and must not panic either
+					if r.Intn(2) == 0 {
+						if err2 := tx.Commit(); err2 == nil {
+							cov["Commit/update-retry/ok"]++
+						} else {
+							cov["Commit/update-retry/err"]++
+							tx.Rollback()
+						}
+					} else {
+						tx.Rollback()
+					}
 					cov["Commit/update/err"]++
 				} else {
 					cov["Commit/update/ok"]++
